@@ -23,7 +23,7 @@ def images(ctx):
     out = []          # (kind, bytes)
     for img in gen_smf.tail_cases():
         out.append(("smf-tail", img))
-    for i in range(6 if quick else 60):
+    for i in range(18 if quick else 60):
         song = gen_smf.gen_song(rng, loops="stack" if i % 3 == 2 else None, ntracks=rng.choice([2, 3]) if i % 3 == 2 else None)
         img = song.encode(running_status=rng.random() < 0.5, drop_eot=(0,) if rng.random() < 0.2 else ())
         out.append(("smf-valid", img))
@@ -36,7 +36,7 @@ def images(ctx):
             body = img[22:]
             out.append(("gmf", b"GMF\x01" + bytes([rng.randrange(256) for _ in range(3)]) + body))
             out.append(("gmf-short", (b"GMF\x01" + body)[:rng.choice([4, 7, 13, 14, 15, 20])]))
-    for i in range(5 if quick else 50):
+    for i in range(15 if quick else 50):
         mus = gen_mus.gen_mus(rng)
         out.append(("mus-valid", mus))
         for m in gen_mus.mutate(rng, mus, 4 if quick else 10):
@@ -46,7 +46,7 @@ def images(ctx):
         for m in gen_mus.mutate(rng, xmi, 4 if quick else 10):
             out.append(("xmi-mutated", m))
     # detectors of the formats the synthesizer refuses (CMF / IMF / EA-MUS) and noise
-    for i in range(8 if quick else 100):
+    for i in range(24 if quick else 100):
         n = rng.choice([14, 15, 16, 40, 100, 400])
         head = rng.choice([b"CTMF", b"CTMF\x01\x01", b"\x00\x00", b"RSXX", b"}u\x7f", b"MThd", b"MUS\x1a", b"FORM\0\0\0\x10XDIR", b"RIFF", b"GMF\x01", b""])
         body = bytes(rng.choice([0, 0, 1, 0x7F, 0xFF, rng.randrange(256)]) for _ in range(n))
